@@ -68,6 +68,8 @@ def oracle(cfg, xs, shape=None, full_walk=False, stats=None):
   y64 = y.astype(np.float64)
   x64 = xs.astype(np.float64)
   base = {"cls": cfg["cls"], "variant": variant(cfg)}
+  if cfg["kw"].get("use_stochastic_rounding"):
+    base["sr_infer"] = True     # stochastic-rounding flag set, inference phase
 
   def one(i):
     return {"cfg": cfg, "xs": [float(xs[i])], "shape": [1]}
